@@ -4,7 +4,7 @@ set -e
 cd "$(dirname "$0")"
 mkdir -p build evidence
 gcc -O2 -I vrt -c vrt/vrt.c -o build/vrt_setup.o
-for m in spec/Myth.tla spec/MythTrace.tla spec/MC_Core.tla spec/MC_Sync.tla spec/EnvParse.tla spec/InitFini.tla spec/InitFiniTrace.tla spec/BulkForkJoin.tla spec/DagRec.tla spec/PiDag.tla spec/WSQueue.tla spec/WSQReplay.tla spec/SleepStack.tla spec/SSReplay.tla spec/PeekCache.tla spec/CtxSwitch.tla spec/PthreadAbs.tla; do
+for m in spec/Myth.tla spec/MythTrace.tla spec/MC_Core.tla spec/MC_Sync.tla spec/EnvParse.tla spec/InitFini.tla spec/InitFiniTrace.tla spec/BulkForkJoin.tla spec/DagRec.tla spec/PiDag.tla spec/WSQueue.tla spec/WSQReplay.tla spec/SleepStack.tla spec/SSReplay.tla spec/PeekCache.tla spec/BulkHuge.tla spec/CtxSwitch.tla spec/PthreadAbs.tla; do
   (cd spec && tla-sany $(basename $m) > /dev/null) || { echo "SANY failed on $m"; exit 1; }
 done
 echo setup ok
